@@ -203,6 +203,10 @@ def run(res, tier, seed, replay):
                           {"kind": "probe_ids", "probe": pr, "how": "pool_ops --probe-ids (resolvo::verif::pool_id_for_index)"})
     res.extra["id_limit_probes"] = n_probes
     os.makedirs(vlib.OUT, exist_ok=True)
+    if replay and json.load(open(replay)).get("replay", {}).get("kind") == "probe_ids":
+        # the replay of an id-limit probe is the probe itself (done above): nothing else to run
+        res.rule = "replay of an id-limit probe: pool_ops --probe-ids"
+        return res.finish(CHECKER, vlib.TRUSTED_BASE, [])
     if replay:
         j = json.load(open(replay))
         case = j["replay"]["case"] if "replay" in j else j.get("case", j)
